@@ -89,8 +89,9 @@ def step (s0 : MState) (j : Json) : MState × Json :=
       let s2 := { s1 with faultIn := none }
       (s2, obs s2 x [("sched", .str verdict), ("hyp", hypJson s2 m p),
                      ("scope", .bool (callScopeB sched s (.setValue p v))),
-                     ("scope_f", .bool ((lookDef s.defs p).isNone && scopeFB s p &&
-                        validSchedule s.idx (chainR p) (sched (findTaskids s.idx (chainR p))) && x.isNone)),
+                     -- the one-call hypothesis of `C01_histories_function_tasks` (mixed expression / function tasks)
+                     ("scope_f", .bool (callOKFB sched s (.setValue p v) || ((lookDef s.defs p).isNone && scopeFB s p &&
+                        validSchedule s.idx (chainR p) (sched (findTaskids s.idx (chainR p))) && x.isNone))),
                      ("order", .arr ((findTaskids m (chainR p)).map pathToJson).toArray)])
     | _, _ => bad s "set"
   | some "setexpr" =>
@@ -102,6 +103,7 @@ def step (s0 : MState) (j : Json) : MState × Json :=
       let s2 := { s1 with faultIn := none }
       (s2, obs s2 x [("sched", .str verdict), ("hyp", hypJson s2 m p),
                      ("scope", .bool (callScopeB sched s (.setExpr p e))),
+                     ("scope_f", .bool (callOKFB sched s (.setExpr p e))),
                      ("order", .arr ((findTaskids m (chainR p)).map pathToJson).toArray)])
     | _, _ => bad s "setexpr"
   | some "iop" =>
@@ -113,7 +115,8 @@ def step (s0 : MState) (j : Json) : MState × Json :=
       let (s1, x) := inplace sched s op p operand
       let s2 := { s1 with faultIn := none }
       (s2, obs s2 x [("sched", .str verdict), ("hyp", hypJson s2 m p),
-                     ("scope", .bool (callScopeB sched s (.inplace op p operand)))])
+                     ("scope", .bool (callScopeB sched s (.inplace op p operand))),
+                     ("scope_f", .bool (callOKFB sched s (.inplace op p operand)))])
     | _, _, _ => bad s "iop"
   | some "genfun" =>
     match fieldArr j "args" with
